@@ -915,37 +915,60 @@ macro_rules! pair_sim {
                             }
                             let cap = len + 4;
                             type Pairs = Vec<(String, (usize, usize))>;
-                            let r: Result<(Result<Pairs, String>, Result<Pairs, String>), String> = catch(|| match &handles[h] {
+                            // manual iteration first, span validity checked after every item: once a span leaves the source the
+                            // lexer's state is corrupt and anything read further would be garbage (and differ from run to run)
+                            let valid = |s: usize, e: usize| s <= e && is_boundary(bytes, is_str, s) && is_boundary(bytes, is_str, e);
+                            let mut bad_span: Option<(String, (usize, usize))> = None;
+                            let manual: Result<Result<Pairs, String>, String> = catch(|| match &handles[h] {
                                 H::LA(l) => {
-                                    let c1 = l.clone();
                                     let mut c2 = l.clone();
-                                    let a = catch(move || c1.spanned().take(cap).map(|(t, s)| (format!("{:?}", t), (s.start, s.end))).collect::<Vec<_>>());
-                                    let b = catch(move || {
+                                    catch(|| {
                                         let mut v = Vec::new();
                                         while let Some(t) = c2.next() {
-                                            v.push((format!("{:?}", t), (c2.span().start, c2.span().end)));
+                                            let sp = (c2.span().start, c2.span().end);
+                                            if !valid(sp.0, sp.1) { bad_span = Some((format!("{:?}", t.map(|_| ())), sp)); break; }
+                                            v.push((format!("{:?}", t), sp));
                                             if v.len() >= cap { break; }
                                         }
                                         v
-                                    });
-                                    (a, b)
+                                    })
                                 }
                                 H::LB(l) => {
-                                    let c1 = l.clone();
                                     let mut c2 = l.clone();
-                                    let a = catch(move || c1.spanned().take(cap).map(|(t, s)| (format!("{:?}", t), (s.start, s.end))).collect::<Vec<_>>());
-                                    let b = catch(move || {
+                                    catch(|| {
                                         let mut v = Vec::new();
                                         while let Some(t) = c2.next() {
-                                            v.push((format!("{:?}", t), (c2.span().start, c2.span().end)));
+                                            let sp = (c2.span().start, c2.span().end);
+                                            if !valid(sp.0, sp.1) { bad_span = Some((format!("{:?}", t.map(|_| ())), sp)); break; }
+                                            v.push((format!("{:?}", t), sp));
                                             if v.len() >= cap { break; }
                                         }
                                         v
-                                    });
-                                    (a, b)
+                                    })
                                 }
                                 _ => unreachable!(),
                             });
+                            if let Some((item, sp)) = bad_span {
+                                stats.hit("op_drain");
+                                violation = Some(violation!("NEXT-invalid-span", stepno, opkind, format!("def{}", models[h].def),
+                                    "handle {}: iterating a clone, next() = {} left span {}..{} which is not a valid range of the {}-byte source (extras {:?})",
+                                    h, item, sp.0, sp.1, len, models[h].ex));
+                                continue;
+                            }
+                            let r: Result<(Result<Pairs, String>, Result<Pairs, String>), String> = match manual {
+                                Err(p) => Err(p),
+                                Ok(b) => catch(|| match &handles[h] {
+                                    H::LA(l) => {
+                                        let c1 = l.clone();
+                                        (catch(move || c1.spanned().take(cap).map(|(t, s)| (format!("{:?}", t), (s.start, s.end))).collect::<Vec<_>>()), b)
+                                    }
+                                    H::LB(l) => {
+                                        let c1 = l.clone();
+                                        (catch(move || c1.spanned().take(cap).map(|(t, s)| (format!("{:?}", t), (s.start, s.end))).collect::<Vec<_>>()), b)
+                                    }
+                                    _ => unreachable!(),
+                                }),
+                            };
                             stats.hit("op_drain");
                             match r {
                                 Err(p) => violation = Some(violation!("CLONE-panic", stepno, opkind, "", "clone() panicked: {}", p)),
@@ -1234,14 +1257,18 @@ fn main() {
 
     // minimise one representative per class, lowest run index first
     let mut failures_json = Vec::new();
+    let mut unstable = 0u64;
     let mut reps: Vec<(&String, &(u64, Failure))> = batch.failures.iter().collect();
     reps.sort_by_key(|(_, (i, _))| *i);
     for (class, (index, fail)) in reps.into_iter().take(12) {
         let sc = Scenario::from_json(fail.replay.get("scenario").unwrap()).unwrap();
         let first = replay(&sc, faults);
         let Some(v) = first.violation else {
-            eprintln!("api-sim: run {index} failed ({class}) but its recorded steps do not reproduce it: harness defect");
-            std::process::exit(2);
+            // e.g. a verdict that depended on memory read through a corrupted lexer: not replayable, so not reported;
+            // the runner treats a batch whose ONLY failures are unstable as a harness error
+            eprintln!("api-sim: run {index} failed ({class}) but its recorded steps do not reproduce it: dropped");
+            unstable += 1;
+            continue;
         };
         let (msc, mv) = minimise(&first.scenario, &v, faults);
         let rj = replay_json(&msc, &mv, faults, seed, *index, true);
@@ -1261,6 +1288,7 @@ fn main() {
     result["tag"] = json!(tag);
     result["failures"] = json!(failures_json);
     result["failure_classes"] = json!(batch.failures.len());
+    result["unstable_failure_classes"] = json!(unstable);
     match out_path {
         Some(p) => write_json(&p, &result),
         None => println!("{}", serde_json_pretty(&result)),
